@@ -325,10 +325,13 @@ def isSubstr (needle : Cps) : Cps → Bool
 /-- `not s.strip()` -/
 def isBlank (s : Cps) : Bool := s.all isSpaceChar
 
-/-- `_remove_last_if_S` (`serialize.py:195-198`) -/
+/-- `not s.strip(' \t\r\n\f')` -/
+def isCssBlank (s : Cps) : Bool := s.all isCssSpace
+
+/-- `_remove_last_if_S` (`serialize.py:195-198`): a piece of CSS white space only (since 5c3733f) -/
 def removeLastIfS (out : List Cps) : List Cps :=
   match out.getLast? with
-  | some l => if isBlank l then out.dropLast else out
+  | some l => if isCssBlank l then out.dropLast else out
   | none => out
 
 /-- `val.endswith(' ') and not val.endswith('\\ ')` (`serialize.py:271`; a name may end with an escaped space) -/
@@ -341,7 +344,8 @@ def endsWithRawSpace (val : Cps) : Bool :=
 /-- `serialize.py:274-277`: written without white space `/` + `*…` would open a comment and `*` `~` `|` `^` `$`
 followed by `=` would become one token (`self.out and (…)`) -/
 def wouldFuse (out : List Cps) (val : Cps) : Bool :=
-  match out.getLast? with
+  -- `last = next((s for s in reversed(self.out) if s), '')`: the last non-empty piece (since 77b59e6)
+  match out.reverse.find? (fun s => !s.isEmpty) with
   | none => false
   | some l =>
     (val.head? = some 0x2A && l = [0x2F])
